@@ -22,7 +22,12 @@ from cryptography.hazmat.primitives.ciphers import Cipher
 import nacl.signing
 
 from paramiko.message import Message
-from paramiko.pkey import PKey, OPENSSH_AUTH_MAGIC, _unpad_openssh
+from paramiko.pkey import (
+    PKey,
+    OPENSSH_AUTH_MAGIC,
+    _unpad_openssh,
+    _signature_fields,
+)
 from paramiko.util import b
 from paramiko.ssh_exception import SSHException, PasswordRequiredException
 
@@ -211,15 +216,13 @@ class Ed25519Key(PKey):
         return m
 
     def verify_ssh_sig(self, data, msg):
-        try:
-            if msg.get_text() != self.name:
-                return False
-        except SSHException:
-            # algorithm name is not valid UTF-8
+        fields = _signature_fields(msg)
+        if fields is None or fields[0] != self.name:
+            # truncated / over-long blob, bad UTF-8, or another algorithm
             return False
 
         try:
-            self._verifying_key.verify(data, msg.get_binary())
+            self._verifying_key.verify(data, fields[1])
         # NOTE: nacl raises its ValueError for signatures that are not exactly
         # 64 bytes long.
         except (nacl.exceptions.BadSignatureError, ValueError):
